@@ -259,8 +259,11 @@ def run(ctx: Ctx, driver: Driver):
     rng = ctx.rng
     loop = simnet.VLoop()
     asyncio.set_event_loop(loop)
-    depth = ctx.budget(4, 5)
-    seqs = gen_schedules(depth, rng, ctx.budget(150, 3000))
+    # every schedule to depth 4; the thorough tier adds a sample of the 42 000 depth-5 schedules (all of them take > 40 min)
+    seqs = gen_schedules(4, rng, ctx.budget(150, 3000))
+    if ctx.thorough():
+        deep = [s_ for s_ in gen_schedules(5, rng, 0) if len(s_) == 5]
+        seqs += rng.sample(deep, min(len(deep), 9000))
     cases, outs, lines = [], [], []
     for kind in ("mdns", "ble", "aggregate"):
         sub = seqs if kind != "aggregate" else seqs[::3]
